@@ -12,16 +12,27 @@
 EXTENDS Naturals, Sequences, FiniteSets, TLC, IOUtils, Json
 
 Trace == ndJsonDeserialize(IOEnv.VERIF_TRACE)
-VARIABLE l
-Init == l = 1
-Next == l <= Len(Trace) /\ l' = l + 1
-Spec == Init /\ [][Next]_l
+VARIABLES l,
+          mergeOut   \* names of the files produced by file merges so far (MergeRequest events)
+E == Trace[l]
+Init == l = 1 /\ mergeOut = {}
+Next == /\ l <= Len(Trace) /\ l' = l + 1
+        /\ mergeOut' = CASE E.ev = "Reset" -> {}
+                          [] E.ev = "MergeRequest" -> mergeOut \cup { E.files[i] : i \in DOMAIN E.files }
+                          [] OTHER -> mergeOut
+Spec == Init /\ [][Next]_<<l, mergeOut>>
 
 SetOf(seq) == { seq[i] : i \in DOMAIN seq }
-E == Trace[l]
 IsSample == l <= Len(Trace) /\ E.ev = "Sample"
 Disk == SetOf(E.disk)
 Named == UNION { SetOf(E.bolt[i].files) : i \in DOMAIN E.bolt }
+
+\* a file produced by a merge that sits in the root is protected from the purger
+\* at every moment: either a bolt snapshot names it or it is marked ineligible
+\* for removal (mark before write; un-mark only after the commit that names it)
+\* - whether or not a purge round happens to run right now
+MergedRootFilesProtected == (IsSample /\ E.rootStable) =>
+   \A f \in SetOf(E.root) \cap mergeOut : f \in SetOf(E.namedAny) \/ f \in SetOf(E.inelAny)
 
 \* every file a snapshot recorded in the metadata store names exists
 BoltFilesOnDisk == IsSample => \A i \in DOMAIN E.bolt : SetOf(E.bolt[i].files) \subseteq Disk
